@@ -164,3 +164,47 @@ func streamIndex() {
 		}
 	}
 }
+
+// The same index arithmetic for the legacy package: arrays of length 0..4 x every operation
+// kind x every canonical index in a window around the bounds and '-', both settings of
+// SupportNegativeIndices.
+func streamLIndex() {
+	toks := []string{"-"}
+	for i := -7; i <= 7; i++ {
+		toks = append(toks, fmt.Sprintf("%d", i))
+	}
+	idx := 0
+	for n := 0; n <= 4; n++ {
+		var elems []string
+		for k := 0; k < n; k++ {
+			elems = append(elems, []string{"10", "null", `{"a":1}`, `[7]`, `"s"`}[k])
+		}
+		arr := "[" + strings.Join(elems, ",") + "]"
+		for _, nested := range []bool{false, true} {
+			doc, base := arr, ""
+			if nested {
+				doc, base = `{"a":`+arr+`,"b":1}`, "/a"
+			}
+			for _, t := range toks {
+				p := encString(base+"/"+t, false)
+				ops := []string{
+					`{"op":"add","path":` + p + `,"value":99}`,
+					`{"op":"remove","path":` + p + `}`,
+					`{"op":"replace","path":` + p + `,"value":99}`,
+					`{"op":"test","path":` + p + `,"value":10}`,
+					`{"op":"copy","from":` + p + `,"path":` + encString(base+"/-", false) + `}`,
+					`{"op":"copy","from":` + encString(base+"/0", false) + `,"path":` + p + `}`,
+					`{"op":"move","from":` + p + `,"path":` + encString(base+"/0", false) + `}`,
+					`{"op":"move","from":` + encString(base+"/0", false) + `,"path":` + p + `}`,
+					`{"op":"remove","path":` + encString(base+"/"+t+"/a", false) + `}`,
+					`{"op":"test","path":` + encString(base+"/"+t+"/0", false) + `,"value":7}`}
+				for _, op := range ops {
+					for _, neg := range []bool{true, false} {
+						idx++
+						emitLApply(fmt.Sprintf("lindex-%d", idx), neg, 0, []byte(doc), []byte("["+op+"]"), nil)
+					}
+				}
+			}
+		}
+	}
+}
